@@ -45,6 +45,21 @@ def _cells_ok(t):
             gotn = [V.tv(x) for x in t[-1]]
             if gotn != want_row:
                 return ("C02/row-col-mismatch", "t[-1] is %s, columns say %s" % (gotn, want_row), {"how": "index-neg"})
+    # two iterations alive at once (nested loops, pairwise zip): the row an outer loop holds
+    # must not move when an inner loop over the same table advances
+    if 1 < n <= 6:
+        for i, a in enumerate(t):
+            for j, b in enumerate(t):
+                ga, gb = [V.tv(x) for x in a], [V.tv(x) for x in b]
+                if ga != [cv[i] for cv in colvals] or gb != [cv[j] for cv in colvals]:
+                    return ("C02/row-col-mismatch", "nested iteration: outer row %d reads %s, inner row %d reads %s; columns say %s / %s" % (
+                        i, ga, j, gb, [cv[i] for cv in colvals], [cv[j] for cv in colvals]), {"how": "nested-iter"})
+        it1, it2 = iter(t), iter(t)
+        next(it2)
+        for i, (a, b) in enumerate(zip(it1, it2)):
+            ga, gb = [V.tv(x) for x in a], [V.tv(x) for x in b]
+            if ga != [cv[i] for cv in colvals] or gb != [cv[i + 1] for cv in colvals]:
+                return ("C02/row-col-mismatch", "two iterators side by side: rows %d/%d read %s / %s" % (i, i + 1, ga, gb), {"how": "pairwise-iter"})
     return None
 
 
